@@ -627,10 +627,33 @@ impl GRLParser {
 
     fn clean_text(&self, text: &str) -> String {
         text.lines()
-            .map(|line| line.trim())
-            .filter(|line| !line.is_empty() && !line.starts_with("//"))
+            .map(|line| Self::strip_line_comment(line).trim())
+            .filter(|line| !line.is_empty())
             .collect::<Vec<_>>()
             .join(" ")
+    }
+
+    /// Cut a `//` comment off the end of a line. A `//` inside a string literal
+    /// (e.g. "http://example.com") is not a comment.
+    fn strip_line_comment(line: &str) -> &str {
+        let mut quote: Option<char> = None;
+        for (i, ch) in line.char_indices() {
+            match quote {
+                Some(q) => {
+                    if ch == q {
+                        quote = None;
+                    }
+                }
+                None => {
+                    if ch == '"' || ch == '\'' {
+                        quote = Some(ch);
+                    } else if ch == '/' && line[i..].starts_with("//") {
+                        return &line[..i];
+                    }
+                }
+            }
+        }
+        line
     }
 
     fn parse_when_clause(&self, when_clause: &str) -> Result<ConditionGroup> {
